@@ -3,7 +3,8 @@
    json.loads (json.dumps v) = v for such values is the external-library hypothesis validated by
    suite W-json / R-json (the implementation's file is parsed and compared with [json_write]). *)
 From Coq Require Import List Bool String ZArith.
-From FM Require Import Base.Result Model.FM Model.PFM Format.Json Proofs.C16Facts Proofs.JsonFacts Proofs.C09Facts Proofs.JsonVariant Proofs.JsonExtra.
+From FM Require Import Base.Result Model.FM Model.PFM Format.Json Proofs.C16Facts Proofs.JsonFacts Proofs.C09Facts Proofs.JsonVariant Proofs.JsonExtra
+     Model.PyRt Model.Loc Gen.Src_json Proofs.SrcJsonFacts Proofs.SrcTieC05.
 Import ListNotations.
 Local Open Scope list_scope.
 
@@ -35,6 +36,18 @@ Print Assumptions C05_roundtrip_model.
 Theorem C05_cycles : forall n m, json_ok m = true -> rels_nonempty (root m) -> iter_cycle n m = Ok m.
 Proof. exact json_cycles. Qed.
 Print Assumptions C05_cycles.
+
+(* ---- the writer half about the TRANSLATED SOURCE of json_writer.py (Gen/Src_json.v, regenerated on every
+   run; DESIGN §10): the translated to_json IS json_write, errors included, for every model ---- *)
+Theorem C05_source_writer : forall m fuel, (fuel_fm m <= fuel)%nat -> py_to_json fuel m = json_write m.
+Proof. exact src_to_json. Qed.
+Print Assumptions C05_source_writer.
+
+Theorem C05_source_roundtrip : forall m fuel, (fuel_fm m <= fuel)%nat -> json_ok m = true ->
+  rels_nonempty (root m) ->
+  exists d, py_to_json fuel m = Ok d /\ json_read d = Ok (annotate_fm m).
+Proof. exact source_json_roundtrip. Qed.
+Print Assumptions C05_source_roundtrip.
 
 Theorem C05_roundtrip_needs_nonempty : forall m d,
   json_write m = Ok d -> json_read d = Ok (annotate_fm m) -> rels_nonempty (root m).
